@@ -415,6 +415,11 @@ package cache
 //@   modifies ghost resetDone, ghost boolSets, ghost lastBool, ghost strSets, ghost lastStr
 //@   ensures [registered C14] res0 != nil && fresh(res0) && c.targets[target] == res0 && res0.name == target
 //@   ensures [own-tree-and-metadata C14] res0.t != nil && fresh(res0.t) && res0.meta != nil && fresh(res0.meta)
+//@   ensures [configured-from-the-cache-options C02 C03 C15] res0.futureThreshold == c.opts.futureThreshold && res0.eventDriven == !c.opts.DisableEventDriven
+//@     && res0.excludedMeta == c.opts.excludedUpdateMeta && res0.client == c.client && res0.lat != nil
+//@   ensures [server-name-recorded C15] RegisteredStr("serverName") ==> lastStr[res0.meta]["serverName"] == c.opts.serverName
+//@   assert at call New#1: [latency-tracker-configured-from-the-cache-options C15] arg0 == c.opts.latencyWindows
+//@     && (c.opts.avgLatencyPrecision == 0 ==> arg1 == nil) && (c.opts.avgLatencyPrecision != 0 ==> arg1 != nil && arg1.AvgPrecision == c.opts.avgLatencyPrecision)
 //@   ensures [others-kept C14] forall k string :: k != target ==> c.targets[k] == old(c.targets[k]) && (has(c.targets, k) <==> old(has(c.targets, k)))
 
 //@ func (*Cache).Reset
